@@ -1158,6 +1158,18 @@ impl<'a> Interp<'a> {
             .enumerate()
             .filter(|(i, l)| **l == Loc::Returning && !seen.contains(&(*i as u32)))
             .count();
+        // an object whose return has pushed it may already have been popped by a get / remove
+        // that is itself still parked: such an object is on its way out, not held twice
+        let popped_in_flight = self
+            .parked
+            .iter()
+            .filter(|p| match p.kind {
+                PKind::TryGet | PKind::TryRemove => true,
+                PKind::Poll(f) => self.futs[f].is_add.is_none(),
+                _ => false,
+            })
+            .count();
+        let returning_not_queued = returning_not_queued.saturating_sub(popped_in_flight);
         let holds = q.len() + self.held.len() + returning_not_queued;
         if holds > self.max {
             self.flag(
